@@ -371,7 +371,9 @@ func runC16(c *Ctx) {
 			}
 			n++
 			if !guardOn(r.Block(), func(a core.Atom) bool { return a.LV == cmp && a.Op == "==" && a.R == "1" }) ||
-				!guardOn(r.Block(), func(a core.Atom) bool { return strings.HasPrefix(a.L, "len(") && strings.HasPrefix(a.R, "len(") && a.Op == "==" }) {
+				!guardOn(r.Block(), func(a core.Atom) bool {
+					return strings.HasPrefix(a.L, "len(") && strings.HasPrefix(a.R, "len(") && a.Op == "=="
+				}) {
 				ok = false
 			}
 		}
@@ -606,7 +608,6 @@ func runC16(c *Ctx) {
 			"r and s are right-aligned into fixed-width buffers", fmt.Sprintf("ECDSA r and s are not both left-padded to the curve byte size (%d padded copies found)", n), nil)
 	}
 }
-
 
 // checkJoseParseKeepsProtected: a parsed JWS keeps the received protected header bytes for every signature (computeAuthData
 // authenticates those bytes; without them it falls back to a re-serialisation that forgives alterations).
